@@ -3,6 +3,7 @@
 
 A test spec:
   {'name','parallel','priority','dur':[ms per iteration],'rc':[status per iteration],'should_fail','xfail_kw',
+   (an rc < 0 means: the program dies by signal -rc)
    'timeout': None|int seconds, 'protocol':'exitcode'|'tap','tap': None|str,'term','suites':[...],'victim':bool,
    'leak': ms a forked helper keeps the test's stdout/stderr open after the test program exited, 'leakterm'}
 
@@ -35,6 +36,7 @@ def _t(name: str, **kw: T.Any) -> dict:
 
 
 _RCS_BAD = [1, 2, 3, 42, 98, 100, 126, 127, 255]
+_SIGNALS = [-11, -6, -9, -15, -8]      # rc < 0: the probe dies by that signal (SEGV, ABRT, KILL, TERM, FPE)
 
 
 def _rand_rc(rng: random.Random, good_only: bool = False) -> int:
@@ -49,7 +51,7 @@ def _rand_rc(rng: random.Random, good_only: bool = False) -> int:
         return 99
     if r < 0.9:
         return 1
-    return rng.choice(_RCS_BAD)
+    return rng.choice(_RCS_BAD + _SIGNALS)
 
 
 def _classify_fields(rng: random.Random, t: dict, good_only: bool, repeat_var: bool) -> None:
@@ -64,13 +66,21 @@ def _classify_fields(rng: random.Random, t: dict, good_only: bool, repeat_var: b
                 t['should_fail'] = True
         else:
             t['tap'] = rng.choice(['ok', 'ok,ok,ok', 'ok,notok', 'notok,ok', 'skipall', 'ok,skip', 'ok,todo',
-                                   'ok,bail', 'notok'])
+                                   'ok,bail', 'notok', 'none', 'skip', 'skip,skip', 'todo'])
             t['rc'] = [0]
             r = rng.random()
-            if r < 0.2:
+            if t['tap'] in ('none', 'skip', 'skip,skip'):
+                # the program dies before it reports a single real result (crash at start-up, after only skips):
+                # always with a bad exit - exit 0 here is not fixed by the documents
+                t['rc'] = [rng.choice([1, 2, 3, 127, 255] + _SIGNALS)]
+                t['should_fail'] = r < 0.15
+            elif t['tap'] == 'skipall' and r < 0.35:
+                t['rc'] = [rng.choice([1, 3, 127] + _SIGNALS)]
+            elif r < 0.2:
                 t['should_fail'] = True
-            elif r < 0.3:
-                t['rc'] = [rng.choice([1, 77, 99, 3])]     # outcome undocumented: checked for "bad" only
+            elif r < 0.35:
+                # outcome (FAIL or ERROR) undocumented: checked for "bad" only
+                t['rc'] = [rng.choice([1, 77, 99, 3] + _SIGNALS)]
         return
     if good_only:
         if rng.random() < 0.3:
@@ -211,7 +221,8 @@ def gen_project(rng: random.Random, profile: str, idx: int = 0) -> dict:
     if profile == 'onebad':
         # exactly one kind of bad result in an otherwise good run: every term of the exit status matters
         t = rng.choice(seq)
-        kind = rng.choice(['fail', 'error', 'upass', 'upass', 'tapfail', 'tapbail', 'taperror'])
+        kind = rng.choice(['fail', 'error', 'upass', 'upass', 'tapfail', 'tapbail', 'taperror', 'tapsilentdie',
+                           'tapskipdie', 'sigdeath', 'tapsigdeath'])
         t.update(protocol='exitcode', tap=None, should_fail=False, rc=[0])
         if kind == 'fail':
             t['rc'] = [rng.choice(_RCS_BAD)]
@@ -224,8 +235,30 @@ def gen_project(rng: random.Random, profile: str, idx: int = 0) -> dict:
             t.update(protocol='tap', tap='ok,notok')
         elif kind == 'tapbail':
             t.update(protocol='tap', tap='ok,bail')
+        elif kind == 'tapsilentdie':
+            t.update(protocol='tap', tap='none', rc=[rng.choice([1, 3, 127] + _SIGNALS)])
+        elif kind == 'tapskipdie':
+            t.update(protocol='tap', tap=rng.choice(['skipall', 'skip', 'skip,skip']),
+                     rc=[rng.choice([1, 3, 127] + _SIGNALS)])
+        elif kind == 'sigdeath':
+            t['rc'] = [rng.choice(_SIGNALS)]
+        elif kind == 'tapsigdeath':
+            t.update(protocol='tap', tap=rng.choice(['ok', 'ok,ok', 'ok,skip']), rc=[rng.choice(_SIGNALS)])
         else:
             t.update(protocol='tap', tap='ok', rc=[rng.choice([1, 3])])
+    if profile == 'classify':
+        # every run reaches the classes "exit status disagrees with / replaces the TAP stream" and "death by signal"
+        cands = [t for t in seq if not t['victim']]
+        rng.shuffle(cands)
+        forced = [dict(protocol='tap', tap='none', rc=[rng.choice([1, 3, 127])]),
+                  dict(protocol='tap', tap='none', rc=[rng.choice(_SIGNALS)]),
+                  dict(protocol='tap', tap=rng.choice(['skipall', 'skip']), rc=[rng.choice([1, 2, 255])]),
+                  dict(protocol='tap', tap=rng.choice(['ok', 'ok,ok']), rc=[rng.choice(_SIGNALS)]),
+                  dict(protocol='exitcode', tap=None, rc=[rng.choice(_SIGNALS)]),
+                  dict(protocol='exitcode', tap=None, rc=[rng.choice(_SIGNALS)], should_fail=True)]
+        for t, f in zip(cands, forced):
+            t.update(should_fail=False)
+            t.update(f)
     for t in seq:
         # suites
         r = rng.random()
